@@ -405,6 +405,55 @@ def check_gauge(mname, model, h, qn, r, table):
                 fail("gauge/%s/%s" % (label.split("/")[0], gname), rec)
 
 
+CFG_FIELDS = ("method", "adaptive", "adaptive_rtol", "tdvp_cmf_midpoint", "tdvp_cmf_c_trapz", "reg_epsilon", "ivp_rtol", "ivp_atol",
+              "ivp_solver", "force_ovlp", "vmf_auto_switch")
+
+
+def check_reuse(mname, model, h, st, sname, table):
+    """one input OBJECT used for several evolve calls: every call must give what a call on a fresh copy gives, the input's
+    represented vector and the fields of its evolve_config (guess_dt excepted: adaptive runs rewrite it by design) must be
+    unchanged; for the order-p schemes the one-step error from the re-used object must still show the order"""
+    mpo = Mpo(model)
+    hn = float(np.linalg.norm(h, 2))
+    for label, method, cfg, kind in table:
+        if time.time() - T0 > 1.5 * BUDGET:
+            return
+        cfg2 = dict(cfg)
+        for k, v in list(cfg2.items()):
+            if v == "DT":
+                cfg2[k] = 0.04
+        try:
+            a = st.copy()
+            set_cfg(a, method, m_max=64, **cfg2)
+            psi = dense_of(a)
+            before = {k: getattr(a.evolve_config, k) for k in CFG_FIELDS}
+            errs, outs = [], []
+            for dt in (0.04, 0.02, 0.04):
+                fresh = a.copy()
+                fresh.evolve_config = a.evolve_config.copy()
+                fresh.compress_config = a.compress_config.copy()
+                o_fresh = dense_of(fresh.evolve(mpo, dt))
+                o = dense_of(a.evolve(mpo, dt))                       # the SAME object every time
+                outs.append(float(np.linalg.norm(o - o_fresh)))
+                errs.append(float(np.linalg.norm(o - ref_vec(h, psi, dt))))
+            after = {k: getattr(a.evolve_config, k) for k in CFG_FIELDS}
+            moved = float(np.linalg.norm(dense_of(a) - psi))
+        except Exception as ex:
+            rec = {"check": "reuse", "scheme": label, "model": mname, "state": sname, "exc": repr(ex)[:300]}
+            records.append(rec)
+            fail("exception/reuse/" + label.split("/")[0], rec)
+            continue
+        changed = sorted(k for k in CFG_FIELDS if before[k] != after[k])
+        rec = {"check": "reuse", "scheme": label, "model": mname, "state": sname, "errs_dt_.04_.02_.04": errs, "diff_to_fresh_copy": outs,
+               "config_fields_changed": changed, "input_moved": moved}
+        records.append(rec)
+        bad = moved > 1e-12 or bool(changed) or errs[2] > 1.0001 * errs[0] + 1e-12
+        if kind[0] == "order" and errs[1] > 1e-10 and hn * 0.04 <= 0.5:
+            bad = bad or (errs[0] / errs[1] < 2 ** (kind[1] + 1 - 0.7))
+        if bad:
+            fail("reuse/" + label.split("/")[0], rec)
+
+
 def check_callable(r):
     model, h, dims = spin_model(3, r)
     n = 3
@@ -466,6 +515,8 @@ for mi_, kind in enumerate(("spin", "holstein")):
     for li in range(0, len(table), 6):
         jobs.append(("dims", kind, li))
         jobs.append(("gauge", kind, li))
+    for li in range(0, len(table), 10):
+        jobs.append(("reuse", kind, li))
 jobs.append(("ps1", "spin", 0))
 jobs.append(("callable", "spin", 0))
 
@@ -501,6 +552,8 @@ for what, kind, li in mine:
         check_dims(mname, model, h, qn, r2, table[li:li + 6])
     elif what == "gauge":
         check_gauge(mname, model, h, qn, r2, table[li:li + 6])
+    elif what == "reuse":
+        check_reuse(mname, model, h, st_c, "complex", table[li:li + 10])
     elif what == "ps1":
         check_ps1_conservation(r2)
     elif what == "callable":
